@@ -192,6 +192,35 @@ def run(chk):
                 seen.add((cur, tuple(t[:-1])))
                 for tok in (b"1e300", b"-1e300", b"2147483648", b"-2147483649", b"3e9", b"1e19", b"0.5", b"-1"):
                     jobs.append(("int-entry-hostile", fmt, b"\n".join(lines[:li] + [b"   " + b"   ".join(t[:-1] + [tok])] + lines[li + 1:]), False, None, None))
+    # systematic: every distinct block header in every hostile shape (truncated after each token, scale token without value / glued / repeated / non-numeric, no name),
+    # and every data line of one file per format truncated after each token
+    seenh = set()
+    for name, data in seeds:
+        fmt = fmt_of(name, data)
+        lines = data.split(b"\n")
+        for li, l in enumerate(lines):
+            t = l.split(b"#")[0].split()
+            if not (t and t[0].lower() == b"block" and len(t) > 1) or (fmt, t[1].upper()) in seenh:
+                continue
+            seenh.add((fmt, t[1].upper()))
+            nm = t[1]
+            shapes = [b"Block", b"Block " + nm + b" Q=", b"Block " + nm + b" Q", b"Block " + nm + b" Q= Q=", b"Block " + nm + b" Q=1000", b"Block " + nm + b" Q= abc", b"Block " + nm + b" Q= 1e999",
+                      b"Block " + nm + b" Q= nan", b"Block " + nm + b" Q= 1000 7 8 9 10 11", b"Block " + nm + b" q= 1000", b"Block " + nm + b" = 1000", b"Block " + nm + b" Q= -1000", b"Block " + nm + b" Q= 0",
+                      b"Block " + nm + b" Q= #", b"BLOCK", b"Block\t" + nm + b"\tQ=", b"Block " + nm + b" Q=\r", b"Block " + nm * 400 + b" Q= 1"] + [b" ".join(t[:k]) for k in range(1, len(t))]
+            for sh in shapes:
+                jobs.append(("header-hostile", fmt, b"\n".join(lines[:li] + [sh] + lines[li + 1:]), False, None, None))
+    donefmt = set()
+    for name, data in seeds:
+        fmt = fmt_of(name, data)
+        if fmt in donefmt:
+            continue
+        donefmt.add(fmt)
+        lines = data.split(b"\n")
+        for li, l in enumerate(lines):
+            t = l.split(b"#")[0].split()
+            if len(t) >= 2 and t[0].lower() != b"block":
+                for k in range(1, len(t)):
+                    jobs.append(("line-truncated", fmt, b"\n".join(lines[:li] + [b"   " + b"   ".join(t[:k])] + lines[li + 1:]), False, None, None))
     for i in range(nmut // 10):
         n = rnd.choice([0, 1, 2, 10, 100, 1000, 65536])
         jobs.append(("random-bytes", rnd.choice(["slha", "gm2calc", "thdm"]), bytes(rnd.randrange(256) for _ in range(n)), rnd.random() < 0.3, None, None))
